@@ -5,7 +5,7 @@ notes.md, meta.json)."""
 import json, os, shutil, sys
 ROOT = os.path.abspath(os.path.join(os.path.dirname(__file__), ".."))
 for p in sys.argv[1:]:
-    for n in range(1, 13):
+    for n in range(1, 21):
         src = "/tmp/seed_%s/seeded/%d" % (p, n)
         res = "/tmp/seedres_%s_%d.json" % (p, n)
         if not (os.path.exists(src + "/patch.diff") and os.path.exists(res)):
